@@ -7,9 +7,11 @@ instance the following ops are evaluated with.  Output numbers are printed as
 import SharkVerif.Model.Loss
 import SharkVerif.Model.Loss2
 import SharkVerif.Model.ErrFn
+import SharkVerif.Model.LossOut
+import SharkVerif.Model.ErrFnHist
 import Driver.Util
 import SharkVerif.Gen.ParRegions
-open SharkVerif SharkVerif.Loss SharkVerif.Scalar SharkVerif.Models SharkVerif.ErrFn
+open SharkVerif SharkVerif.Loss SharkVerif.Scalar SharkVerif.Models SharkVerif.ErrFn SharkVerif.LossOut SharkVerif.ErrFnHist
 
 def parseAct6 : String → Option Act
   | "linear" => some .linear | "rectifier" => some .rectifier | _ => none
@@ -102,6 +104,156 @@ def showSeqGrad {α} [Num α] (g : List (List (List α))) : String :=
 /-- split a flat list into consecutive pieces of the given lengths -/
 def splitBy {β} (lens : List Nat) (l : List β) : List (List β) :=
   (lens.foldl (fun (acc : List (List β) × List β) n => (acc.1 ++ [acc.2.take n], acc.2.drop n)) ([], l)).1
+
+/-! ### object re-use: the shared gradient object (`gset` / `rderiv`), the shared sequence gradient (`sset` / `rseq`) -/
+structure Shared (α : Type) where
+  g : OutMat α := OutMat.empty
+  s : List (List (List α)) := []
+
+def runReuse {α} [Num α] (secs : List (List String)) (st : Shared α) : Option (String × Shared α) :=
+  let nums : List String → Option (List α) := fun ts => ts.mapM parseDy
+  let nats (ts : List String) : Option (List Nat) := ts.mapM String.toNat?
+  match secs with
+  | [["gset"], dims, vals] =>
+    match nats dims, nums vals with
+    | some [n, m], some v => if v.length == n * m then some ("ok", { st with g := ⟨n, m, v⟩ }) else some ("bad-op", st)
+    | _, _ => some ("bad-op", st)
+  | [["sset"], [d], lens, [fill]] =>
+    match d.toNat?, nats lens, parseDy (α := α) fill with
+    | some d, some lens, some f => some ("ok", { st with s := lens.map fun k => List.replicate k (List.replicate d f) })
+    | _, _, _ => some ("bad-op", st)
+  | [["rseq"], [ig, d], lens, labs, prs] =>
+    match ig.toNat?, d.toNat?, nats lens, nums labs, nums prs with
+    | some ig, some d, some lens, some l, some p =>
+      let L := splitBy lens (chunk l d)
+      let P := splitBy lens (chunk p d)
+      if (lens.any fun n => n ≤ ig) then some ("exception", st) else
+      let r := seqInto ig st.s L P
+      some (s!"V={Num.shw r.1} G={showSeqGrad r.2}", { st with s := r.2 })
+    | _, _, _, _, _ => some ("bad-op", st)
+  | [["rderiv", loss], par, dims, labs, prs] =>
+    match nats dims, nums par, nums prs with
+    | some [_n, m], some par, some prs =>
+      let preds := chunk prs m
+      let vecLabels : Option (List (List α)) := (nums labs).map fun l => chunk l m
+      let clsLabels : Option (List Nat) := nats labs
+      let ol : Option (OutLoss α) :=
+        match loss, vecLabels, clsLabels with
+        | "squared", some l, _ => some (squaredOut l preds)
+        | "squaredclass", _, some c => some (squaredClassOut c preds)
+        | "hinge", _, some c => some (hingeOut c preds)
+        | "sqhinge", _, some c => some (sqHingeOut c preds)
+        | "epshinge", some l, _ => some (epsHingeOut (par.getD 0 0) l preds)
+        | "sqepshinge", some l, _ => some (sqEpsHingeOut (sqr (par.getD 0 0)) l preds)
+        | "huber", some l, _ => some (huberOut Num.sqrt (par.getD 0 1) l preds)
+        | "crossentropy", _, some c => some (crossEntropyOut Num.exp Num.log c preds)
+        | "crossentropysoft", some l, _ => some (crossEntropySoftOut Num.exp Num.log l preds)
+        | _, _, _ => none
+      match ol with
+      | some ol =>
+        let r := ol.into st.g
+        some (s!"V={Num.shw r.1} S={ol.n}x{ol.m} G={showMat (ol.rowsInto st.g)}", { st with g := r.2 })
+      | none => some ("bad-op", st)
+    | _, _, _ => some ("bad-op", st)
+  | _ => none
+
+/-! ### `efh`: call histories on error functions sharing one model object -/
+def splitSemi (ts : List String) : List (List String) :=
+  if ts.isEmpty then [] else
+  let r := ts.foldl (fun (acc : List (List String) × List String) t =>
+    if t == ";" then (acc.1 ++ [acc.2], []) else (acc.1, acc.2 ++ [t])) ([], [])
+  r.1 ++ [r.2]
+
+def dummyModel {α} [Num α] : ModelFn α := { m := 0, np := 0, evalB := fun _ _ _ => 0, wpd := fun _ _ _ => [] }
+
+def regFn {α} [Num α] (kind : String) (msk : List α) (params : List α) : α × List α :=
+  if kind == "one" then
+    (if msk.isEmpty then oneNorm params else oneNormMasked msk params,
+     if msk.isEmpty then params.map sign else List.zipWith (fun xi mi => sign xi * mi) params msk)
+  else
+    (if msk.isEmpty then twoNorm params else twoNormMasked msk params,
+     if msk.isEmpty then params else List.zipWith (fun xi mi => mi * xi) params msk)
+
+def runEfh {α L} [Num α] (lossOf : String → Option α → Option (LossFn α L)) (labelsOf : Nat → Nat → List L)
+    (spec : List String) (tv pts xs parts ws regv objs steps : List String) : String :=
+  let nums : List String → Option (List α) := fun ts => ts.mapM parseDy
+  let nats (ts : List String) : Option (List Nat) := ts.mapM String.toNat?
+  match nats tv, nums pts, nums xs, (splitSemi parts).mapM nats, nums ws, nums regv with
+  | some [T], some pts, some xs, some parts, some ws, some (strength :: msk) =>
+    match buildNet spec ([] : List α) with
+    | none => "bad-op"
+    | some (f0, nIn) =>
+      let np := f0.np
+      let points := chunk pts np
+      let mk : List α → ModelFn α := fun p => match buildNet spec p with | some (f, _) => f | none => dummyModel
+      let objs? : Option (List (Obj α L)) := (splitSemi objs).mapM fun t =>
+        match t with
+        | [fl, loss, par, part, rk] =>
+          let par? : Option α := if par == "-" then none else parseDy par
+          match (match fl with | "plain" => some Flavour.plain | "w" => some Flavour.weighted | "mini" => some Flavour.mini | _ => none),
+                lossOf loss par?, part.toNat? with
+          | some fl, some lo, some part =>
+            let sizes := parts.getD part []
+            some { flavour := fl, loss := lo, B := sizes.length,
+                   batches := mkBatches nIn sizes xs labelsOf (if fl == Flavour.weighted then ws else []),
+                   reg := if rk == "none" then none else some (strength, regFn rk msk) }
+          | _, _, _ => none
+        | _ => none
+      let steps? : Option (List (Step α)) := (splitSemi steps).mapM fun t =>
+        match t with
+        | ["e", o, pt] => do let o ← o.toNat?; let pt ← pt.toNat?; pure (Step.eval o (points.getD pt []))
+        | ["d", o, pt] => do let o ← o.toNat?; let pt ← pt.toNat?; pure (Step.deriv o (points.getD pt []))
+        | ["set", pt] => do let pt ← pt.toNat?; pure (Step.setModel (points.getD pt []))
+        | ["copy", o] => do let o ← o.toNat?; pure (Step.copy o)
+        | ["asg", a, b] => do let a ← a.toNat?; let b ← b.toNat?; pure (Step.assign a b)
+        | ["init", o] => do let o ← o.toNat?; pure (Step.init o)
+        | ["thr", t] => do let t ← t.toNat?; pure (Step.threads t)
+        | _ => none
+      match objs?, steps? with
+      | some objs, some steps =>
+        let res := run mk { cur := List.replicate np 0, objs := objs, threads := T } steps
+        let shown := (steps.zip res).filterMap fun (s, r) =>
+          match s, r with
+          | Step.eval _ _, some cands => some ("{" ++ " # ".intercalate (cands.map fun c => showRes false c) ++ "}")
+          | Step.deriv _ _, some cands => some ("{" ++ " # ".intercalate (cands.map fun c => showRes true c) ++ "}")
+          | _, _ => none
+        if shown.isEmpty then "none" else " ## ".intercalate shown
+      | _, _ => "bad-op"
+  | _, _, _, _, _, _ => "bad-op"
+
+def runEfhOp {α} [Num α] (secs : List (List String)) : Option String :=
+  match secs with
+  | [["efcopyprobe"]] => some "copy-initialises-all-members"
+  | [["efh", fam], spec, tv, pts, xs, labs, parts, ws, regv, objs, steps] =>
+    let nums : List String → Option (List α) := fun ts => ts.mapM parseDy
+    match buildNet spec ([] : List α) with
+    | none => some "bad-op"
+    | some (f0, _) =>
+      let m := f0.m
+      if fam == "vec" then
+        match nums labs with
+        | some l =>
+          let rows := chunk l m
+          let lossOf : String → Option α → Option (LossFn α (List α)) := fun name par =>
+            match name with
+            | "squared" => some squaredLoss
+            | "epshinge" => some (epsHingeLoss (par.getD 0))
+            | "sqepshinge" => some (sqEpsHingeLoss (sqr (par.getD 0)))
+            | _ => none
+          some (runEfh lossOf (fun pos n => (rows.drop pos).take n) spec tv pts xs parts ws regv objs steps)
+        | none => some "bad-op"
+      else
+        match labs.mapM String.toNat? with
+        | some l =>
+          let lossOf : String → Option α → Option (LossFn α Nat) := fun name _ =>
+            match name with
+            | "squaredclass" => some squaredClassLoss
+            | "hinge" => some hingeLoss
+            | "sqhinge" => some sqHingeLoss
+            | _ => none
+          some (runEfh lossOf (fun pos n => (l.drop pos).take n) spec tv pts xs parts ws regv objs steps)
+        | none => some "bad-op"
+  | _ => none
 
 def runOp2 {α} [Num α] (secs : List (List String)) : Option String :=
   let nums : List String → Option (List α) := fun ts => ts.mapM parseDy
@@ -275,25 +427,44 @@ def runOp {α} [Num α] (secs : List (List String)) : String :=
     | none => "bad-op"
   | _ => "bad-op"
 
-partial def loop (h : IO.FS.Stream) (out : IO.FS.Stream) (float : Bool) : IO Unit := do
+structure St where
+  float : Bool := false
+  shF : Shared Float := {}
+  shR : Shared Rat := {}
+
+partial def loop (h : IO.FS.Stream) (out : IO.FS.Stream) (st : St) : IO Unit := do
   let line ← h.getLine
   if line.isEmpty then return ()
   let secs := sections line
   match secs with
-  | [["mode", "float"]] => out.putStrLn "ok"; loop h out true
-  | [["mode", "rat"]] => out.putStrLn "ok"; loop h out false
+  | [["mode", "float"]] => out.putStrLn "ok"; loop h out { st with float := true }
+  | [["mode", "rat"]] => out.putStrLn "ok"; loop h out { st with float := false }
   | _ =>
-    let r : String :=
-      if float then
-        match runNll secs with
-        | some r => r
-        | none => match runOp2 (α := Float) secs with
+    if st.float then
+      match runReuse (α := Float) secs st.shF with
+      | some (r, sh) => out.putStrLn r; loop h out { st with shF := sh }
+      | none =>
+        let r : String :=
+          match runNll secs with
           | some r => r
-          | none => runOp (α := Float) secs
-      else match runOp2 (α := Rat) secs with
-        | some r => r
-        | none => runOp (α := Rat) secs
-    out.putStrLn r
-    loop h out float
+          | none => match runEfhOp (α := Float) secs with
+            | some r => r
+            | none => match runOp2 (α := Float) secs with
+              | some r => r
+              | none => runOp (α := Float) secs
+        out.putStrLn r
+        loop h out st
+    else
+      match runReuse (α := Rat) secs st.shR with
+      | some (r, sh) => out.putStrLn r; loop h out { st with shR := sh }
+      | none =>
+        let r : String :=
+          match runEfhOp (α := Rat) secs with
+          | some r => r
+          | none => match runOp2 (α := Rat) secs with
+            | some r => r
+            | none => runOp (α := Rat) secs
+        out.putStrLn r
+        loop h out st
 
-def main : IO Unit := do loop (← IO.getStdin) (← IO.getStdout) false
+def main : IO Unit := do loop (← IO.getStdin) (← IO.getStdout) {}
